@@ -40,7 +40,7 @@ pub const HB_OT_SHAPE_ZERO_WIDTH_MARKS_BY_GDEF_LATE: u32 = 2;
 pub type DecomposeFn = fn(&hb_ot_shape_normalize_context_t, char) -> Option<(char, char)>;
 pub type ComposeFn = fn(&hb_ot_shape_normalize_context_t, char, char) -> Option<char>;
 
-pub const DEFAULT_SHAPER: hb_ot_shaper_t = hb_ot_shaper_t {
+pub static DEFAULT_SHAPER: hb_ot_shaper_t = hb_ot_shaper_t {
     collect_features: None,
     override_features: None,
     create_data: None,
